@@ -280,7 +280,9 @@ pub fn operations_accepted() {
 
 // ========================================================================================== bucket edge
 /// NOT REGISTERED (checks/reg_registries.py): with 100-element vectors the symbolic execution of one call exceeds
-/// 12 GB (every element comparison of the model allocates two value buffers); kept for a future cheaper vector model.
+/// 12 GB / 15 min (the bucket scans `first_index_of` / `contains` over 100-element inline vectors return from inside the
+/// loop, and the bucket loop `0..=last_bucket` has a symbolic bound; narrowing the model's comparison buffers did not
+/// help); kept for a future cheaper vector model.
 /// Profile with vector capacity 100 (= BUCKET_SIZE): the count is symbolic around the bucket boundary.
 /// Bound on the contents (the library only compares addresses, so this loses nothing but is stated): bucket 0 holds
 /// the fixed addresses 1000 + i except at ONE symbolic position, which holds an arbitrary address; the up to 3 tokens
